@@ -120,6 +120,12 @@ PROPS = {
         fields=[12, 13, 17, 18],
         rule=CHAIN_RULE + "; settlement fees feed the reward pool (oracle share 0.5), pro-bono rates 0, 0.3, 0.5, 0.333.., 1; every registered crisis invariant is evaluated on the real app after every block",
         assumptions=["x/distribution AllocateTokensToValidator credits exactly the DecCoins it is given; the SDK modules' own invariants are observed (crisis AssertInvariants after every block), not proved"]),
+    'C17': dict(
+        theorems=['C17_settlement_roundtrip', 'C17_oracle_roundtrip', 'C17_roundtrip_after_any_history', 'C17_genesis_hypotheses'],
+        runs=[chain('roundtrip', 'roundtrip', 48, 1600, 'check_C17')],
+        fields=[32, 33, 34, 36, 37, 38, 39, 40, 44, 30],
+        rule=CHAIN_RULE + "; after the last block the application state is exported (ExportAppStateAndValidators), a fresh application is initialised from the export at the next height, and the two modules are observed there",
+        assumptions=["the other modules' genesis round trip (auth, bank, staking, evm, ...) is trusted; the export is taken at a block boundary"]),
     'C15': dict(
         theorems=['C15_close_iff', 'C15_gate_as_coded', 'C15_every_window_closed', 'C15_first_tally', 'C15_nobody_else',
                   'C15_effect', 'C15_miss_only', 'C15_old_gate_never_closes'],
@@ -136,9 +142,13 @@ PROOF_NOTE = ("Theorems are about the Gallina model; the model is tied to /repo 
               "(same histories on the real app and on the model, compared on this property's observables). Trusted: Coq kernel "
               "+ vm_compute, the Go harness and printer, the SDK/EVM parts listed in DESIGN.md section 9.")
 
+C17_LEVEL = dict(text="Unbounded theorems: for every state reachable by any history of the composed chain (via the refinement of the chain to the settlement machine and the sortedness invariant of the oracle lists) the export imports without failure and reproduces tenants, every pending record (id, request id, amount, recipients, NFT, creation height, order), the request-id index, parameters, ballots, feeder delegations and miss counters; exporting again yields the same document. Correspondence: after ABCI histories the full application state is exported, a fresh application is initialised from it at the next height, and both modules' state and second export are compared with the original and with the model's import.",
+                 note=PROOF_NOTE, technique="Coq proof: round-trip theorem from the reachable-state invariants (refinement CM -> SM) + real export/InitChain round trips compared with the model")
+
 SETTLE_TECH = "Coq proof: invariant by induction over histories of the generalised settlement machine (arbitrary oracle fills and fault plans) + differential correspondence via vm_compute on ABCI histories"
 
 LEVELS = {
+    'C17': C17_LEVEL,
     'C01': dict(text="Unbounded theorems over all histories of the settlement machine with arbitrary oracle input and fault plans: every record id is recorded once and resolved at most once, only after it was recorded; pending = recorded minus resolved; paid amounts are the floor split and sum to at most the amount; native treasuries are debited by exactly the paid total. Correspondence: ABCI histories (incl. genesis-imported multi-recipient records and back-end faults) compared with the model on records, index, balances and typed events; the implementation's own events and balances are checked against the property.",
                 note=PROOF_NOTE, technique=SETTLE_TECH),
     'C02': dict(text="Unbounded theorems: the uint64 maturity test equals created+period <= height in Z for every period in [1,2^64); no GPaid before maturity in any history; cancel of a pending record succeeds and removes it, a cancelled id is never paid, a cancel for a request id that is not pending is rejected. Correspondence on ABCI histories with boundary periods and cancels racing the paying block.",
@@ -166,4 +176,4 @@ LEVELS = {
 }
 
 NOT_APPLICABLE = {p: "work in progress in this session: model exists, check not yet registered" for p in
-                  ['C03','C04','C13','C16','C17','C18','C19','C20']}
+                  ['C03','C04','C13','C16','C18','C19','C20']}
